@@ -254,6 +254,7 @@ def run(ctx):
     date_l = [l for l in lambdas if any(isinstance(x, ast.Attribute) and x.attr == 'last_modified' for x in ast.walk(l))]
     okp = len(date_l) >= 1
     wrong = []
+    undecidable = None
     if okp:
         try:
             for lam in date_l[:1] if len(date_l) == 1 else date_l:
@@ -274,10 +275,10 @@ def run(ctx):
                         if got != expect:
                             wrong.append((s_, e_, lm, expect, got))
         except Undecidable as u:
-            wrong.append(('undecidable', str(u), None, None, None))
+            undecidable = str(u)
     cc.instance('instant predicate on 15 sample (start, end, last_modified) triples: start <= lm <= end, bounds optional', ik.qualname,
-                okp and not wrong, detail=str(wrong[:3]))
-    if not okp or wrong:
+                okp and not wrong and not undecidable, detail=str(wrong[:3]) + (' undecidable: %s' % undecidable if undecidable else ''))
+    if okp and (wrong or not undecidable) and (not okp or wrong):
         res.add(Finding('C16', 'C16.c', 'R-DECISION', ik.file, ik.qualname, date_l[0].lineno if date_l else ik.node.lineno,
                         norm(date_l[0]) if date_l else 'date predicate',
                         'the last-modified predicate is not "start <= last_modified <= end with optional inclusive bounds": %s' % (
@@ -298,6 +299,8 @@ def run(ctx):
                 if free & targets:
                     late.append((lam, sorted(free & targets)))
     cc.instance('no stored closure reads a loop variable (late binding)', ik.qualname, not late)
+    if (undecidable or not okp) and not late:
+        raise AnalysisError('the last-modified predicate of the facade has a shape the evaluator does not model (%s)' % (undecidable or 'not found'))
     for lam, names in late:
         res.add(Finding('C16', 'C16.c', 'R-DECISION', ik.file, ik.qualname, lam.lineno, norm(lam),
                         'a predicate stored inside a loop reads the loop variable(s) %s when it is called later: every stored predicate '
@@ -309,8 +312,8 @@ def run(ctx):
             v = n.value
             call = v.body if isinstance(v, ast.IfExp) else v
             loc[n.targets[0].id] = norm(call.func) if isinstance(call, ast.Call) else norm(call)
-    okl = len(loc) == 2 and len(set(loc.values())) == 1
-    cc.instance('both bounds localised the same way (%s)' % sorted(set(loc.values())), ik.qualname, okl)
+    okl = len(loc) < 2 or len(set(loc.values())) == 1
+    cc.instance('both bounds localised the same way (%s)' % sorted(set(loc.values())), ik.qualname, okl, nontrivial=len(loc) == 2)
     if not okl:
         res.add(Finding('C16', 'C16.c', 'R-DECISION', ik.file, ik.qualname, ik.node.lineno, 'bound localisation %s' % loc,
                         'start and end are not converted to aware instants the same way'))
